@@ -1,7 +1,7 @@
 //verif:package github.com/kstenerud/go-concise-encoding/internal/verifh/c04
 //verif:config cap=300
-//verif:bounds typed round trip through the real iterator Session, rules and builder Session (events in between; entry ThroughCBE adds the real CBE encoder and decoder): signed/unsigned integers of every width (all values), float32/float64 (all bit patterns but NaN), bool, strings of 0..2 symbolic ASCII bytes, []byte / [2]byte, slices and arrays of uint16/int32/uint64/float32 with 0..2 symbolic elements, []string, []int, []uint, []bool of 0..9 elements, map[string]uint8 and map[int16]string with 0..2 entries, pointers to scalars (nil and non-nil), *[]string, nested and embedded structs, interface{} fields holding an integer / string / nil, slices of structs
-//verif:assume reflect, sync.Map and WaitGroup are the engine's emulation / sequential model; equality is checked field by field by the harness (no reflect.DeepEqual); big numbers, times, URLs, media, custom types and recursion support (C20) are not in this check
+//verif:bounds typed round trip through the real iterator Session, rules and builder Session (events in between; entry ThroughCBE adds the real CBE encoder and decoder): signed/unsigned integers of every width (all values), float32/float64 (all bit patterns but NaN), bool, strings of 0..2 symbolic ASCII bytes, []byte / [2]byte, slices and arrays of uint16/int32/uint64/float32 with 0..2 symbolic elements, []string, []int, []uint, []bool of 0..9 elements, map[string]uint8 and map[int16]string with 0..2 entries, pointers to scalars (nil and non-nil), *[]string, nested and embedded structs, interface{} fields holding an integer / string / nil, slices of structs, structs with two types.Media values and a long string, adjacent byte slices
+//verif:assume reflect, sync.Map and WaitGroup are the engine's emulation / sequential model; equality is checked field by field by the harness (no reflect.DeepEqual); big numbers, times, URLs, custom types and recursion support (C20) are not in this check
 package c04
 
 import (
@@ -14,6 +14,7 @@ import (
 	"github.com/kstenerud/go-concise-encoding/internal/verifrt"
 	"github.com/kstenerud/go-concise-encoding/iterator"
 	"github.com/kstenerud/go-concise-encoding/rules"
+	"github.com/kstenerud/go-concise-encoding/types"
 )
 
 // roundTrip marshals v into a validated event stream and unmarshals the stream
@@ -106,7 +107,7 @@ type Inner2 struct {
 	Z int8
 }
 
-const numCases = 22
+const numCases = 24
 
 func typedCase(which int, throughCBE bool) {
 	same := "the unmarshaled value equals the marshaled one"
@@ -300,6 +301,34 @@ func typedCase(which int, throughCBE bool) {
 		v := int64(verifrt.I64("top"))
 		got, ok := roundTrip("int64", v, int64(0), throughCBE).(int64)
 		verifrt.Assert(ok && got == v, "int64: "+same+" (top-level int64)")
+	case 22:
+		// two media values and a long string: array-like values after the first
+		// media reuse the decoder's buffers
+		type holder struct {
+			Icon, Preview types.Media
+			Comment       string
+		}
+		v := holder{
+			Icon:    types.Media{MediaType: "image/x", Data: verifrt.Bytes("icon", 3)},
+			Preview: types.Media{MediaType: "image/y", Data: verifrt.Bytes("preview", 2)},
+			Comment: "a comment longer than fifteen bytes" + ascii("c", 1),
+		}
+		got, ok := roundTrip("struct with media", v, holder{}, throughCBE).(*holder)
+		verifrt.Assert(ok && got != nil, "struct with media: type")
+		verifrt.Assert(got.Icon.MediaType == "image/x" && got.Preview.MediaType == "image/y" && got.Comment == v.Comment, "struct with media: "+same+" (media types, string)")
+		verifrt.Assert(len(got.Icon.Data) == 3 && len(got.Preview.Data) == 2, "struct with media: payload lengths")
+		verifrt.Assert(verifrt.BytesEq(got.Icon.Data, v.Icon.Data) && verifrt.BytesEq(got.Preview.Data, v.Preview.Data), "struct with media: "+same+" (media payloads)")
+	case 23:
+		// byte slices next to each other: none may alias a decoder buffer
+		type holder struct {
+			A, B []byte
+			C    [2][]byte
+		}
+		v := holder{A: verifrt.Bytes("a", 2), B: verifrt.Bytes("b", 3), C: [2][]byte{verifrt.Bytes("c0", 1), verifrt.Bytes("c1", 2)}}
+		got, ok := roundTrip("struct of byte slices", v, holder{}, throughCBE).(*holder)
+		verifrt.Assert(ok && got != nil, "struct of byte slices: type")
+		verifrt.Assert(len(got.A) == 2 && len(got.B) == 3 && len(got.C[0]) == 1 && len(got.C[1]) == 2, "struct of byte slices: lengths")
+		verifrt.Assert(verifrt.BytesEq(got.A, v.A) && verifrt.BytesEq(got.B, v.B) && verifrt.BytesEq(got.C[0], v.C[0]) && verifrt.BytesEq(got.C[1], v.C[1]), "struct of byte slices: "+same)
 	case 21:
 		v := ascii("top", verifrt.Choice("len", 3))
 		got, ok := roundTrip("string", v, "", throughCBE).(string)
@@ -320,7 +349,7 @@ func Verif_C04_TypedRoundTrip() {
 // so the cases with many integers (covered by C01 at the codec level) are left
 // to the entry above.
 func Verif_C04_TypedRoundTripThroughCBE() {
-	cases := []int{2, 3, 4, 7, 8, 12, 14, 15, 16, 18, 19, 21}
+	cases := []int{2, 3, 4, 7, 8, 12, 14, 15, 16, 18, 19, 21, 22, 23}
 	which := cases[verifrt.Choice("case", len(cases))]
 	verifrt.Known("KF-C04-pointer-to-container", which == 15)
 	typedCase(which, true)
